@@ -3,6 +3,7 @@ import Driver.ZoneCmds
 import Driver.CacheCmds
 import Driver.UpstreamCmds
 import Driver.ResolveCmds
+import Driver.ServerCmds
 import Resolved.Spec.RefDecode
 
 namespace Resolved.Driver
@@ -117,6 +118,14 @@ def dispatch (fields : List String) : Result :=
   | ["upstream.validate", q, mc, m, impl] => cmdValidate q mc m impl
   | ["upstream.matches", a, b, impl] => cmdMatches a b impl
   | ["resolve", fam, mode, zones, cache, script, q, expect, impl] => cmdResolve fam mode zones cache script q expect impl
+  | ["server.udp", mode, zones, q, impl] => cmdServerUdp mode zones q impl
+  | ["server.tcp", mode, zones, q, impl] =>
+    cmdServerTcp mode zones q (match bytesOfHex q with | some b => toString b.length | none => "0") impl
+  | ["server.tcp-short", mode, zones, q, announce, impl] => cmdServerTcp mode zones q announce impl
+  | ["server.alive", _, impl] =>
+    { model := "alive", oracle := if impl == "alive" then "ok" else "fail:C09:server-died", tags := "alive" }
+  | ["server.start", _, impl] => { model := "started", oracle := "fail:C09:server-did-not-start:" ++ impl }
+  | ["server.reload", steps, impl] => cmdServerReload steps impl
   | cmd :: _ => bad ("unknown " ++ cmd)
   | [] => bad "empty"
 
